@@ -603,7 +603,27 @@ impl BuildJob<'_> {
                     }
                 }
             }
-            if st2.is_some() {
+            // Two-stage commit: before the target file is touched, durably record
+            // that it is generated by us and that its state is unknown (no stamp).
+            // If redo is killed between replacing the file and committing its new
+            // stamp below, the next run finds "generated, no stamp" and simply
+            // rebuilds the target, instead of mistaking our own output for a file
+            // the user modified (or for a source file) and never building it again.
+            let staged = sf
+                .refresh(ptx)
+                .and_then(|_| {
+                    sf.is_generated = true;
+                    sf.stamp = None;
+                    sf.save(ptx)
+                })
+                .and_then(|_| ptx.checkpoint().map_err(RedoError::opaque_error));
+            if let Err(e) = &staged {
+                log_err!("{:?}: stage new state: {}", t, e);
+                rv = EXIT_BUILD_JOB_ERROR;
+            }
+            if staged.is_err() {
+                // leave the target alone
+            } else if st2.is_some() {
                 // either $3 file was created *or* stdout was written to.
                 // therefore tmpfile now exists.
                 if let Err(e) = fs::rename(tmp_name, t) {
